@@ -122,7 +122,7 @@ def _score(model):
     return GM.table[(model.x, model.rep)]
 
 
-def selection(s0: int, s1: int, s2: int, s3: int, parity: bool, o0: int, o1: int, o2: int) -> bool:
+def selection(s0: int, s1: int, s2: int, s3: int, parity: bool, o0: int, o1: int, o2: int, s4: int = 0, s5: int = 0) -> bool:
     """
     pre: o0 >= 0 and o1 >= 0 and o2 >= 0
     post: _
@@ -130,7 +130,7 @@ def selection(s0: int, s1: int, s2: int, s3: int, parity: bool, o0: int, o1: int
     # one repetition, MIN/MAX mode: the aggregate of combination i is exactly s_i (any int: ties, negative, huge)
     hx.begin()
     k, procs = hx.P['k'], hx.P['procs']
-    scores = [s0, s1, s2, s3][:k]
+    scores = [s0, s1, s2, s3, s4, s5][:k]
     GM.built = []
     GM.table = {(i, 0): scores[i] for i in range(k)}
     mode = ScoreMode.MAX if parity else ScoreMode.MIN
@@ -285,9 +285,9 @@ def obligations(tier):
         X("aggregate_linear", aggregate_linear, labels=("min", "max", "sum"), timeout=300, encoded=(B._score_model_for_search,)),
         X("aggregate_dispatch", aggregate_dispatch, labels=("mean", "variance", "invalid_mode"), timeout=300,
           encoded=(B._score_model_for_search,)),
-        X("selection", selection, parts=[{"k": k, "procs": p} for k in (1, 2, 3, 4) for p in (1, 2) if not (p == 2 and k in (1, 3))],
+        X("selection", selection, parts=[{"k": k, "procs": p} for k in ((1, 2, 3, 4) if tier == "quick" else (1, 2, 3, 4, 5, 6)) for p in (1, 2) if not (p == 2 and k in (1, 3, 5))],
           labels=("best_last", "best_first"), labels_for=lambda p: ("best_last", "best_first") if p["k"] > 1 else ("best_first",),
-          timeout=600, encoded=enc, bounds={"combinations": "1..4", "aggregates": "all ints"}),
+          timeout=600, encoded=enc, bounds={"combinations": "1..4 (quick) / 1..6 (thorough)", "aggregates": "all ints"}),
         X("reuse", reuse, parts=[{"procs2": 1}, {"procs2": 2}], labels=("second_search",), timeout=600, encoded=enc + (B.ParameterList.build,)),
         X("repetitions", repetitions, parts=[{"reps": r, "procs": p} for r in (1, 2, 3) for p in (1, 2) if not (p == 2 and r == 1)],
           labels=("second_best", "first_best"), timeout=900, encoded=enc),
